@@ -108,6 +108,16 @@ func (rww *responseWriterWrapper) WriteHeader(status int) {
 	rww.ResponseWriterWrapper.WriteHeader(status)
 }
 
+// Flush writes the header first if that has not been done yet, like
+// net/http does. Otherwise the header would be sent without the deferred
+// operations applied, and written a second time by the next Write.
+func (rww *responseWriterWrapper) Flush() {
+	if !rww.wroteHeader {
+		rww.WriteHeader(http.StatusOK)
+	}
+	rww.ResponseWriterWrapper.Flush()
+}
+
 // delHeader deletes the existing header according to the key
 // Also it will delete that header added later.
 func (rww *responseWriterWrapper) delHeader(key string) {
